@@ -70,6 +70,9 @@ pub enum IntegDecl {
     MultiThree,
     /// three hashes of the writer's algorithm: wrong, RIGHT, wrong (any match counts)
     MultiRightInTheMiddle,
+    /// the correct hash under the writer's algorithm preceded by the correct hash of the SAME data
+    /// under a weaker algorithm (the strongest decides; the data may be stored under both)
+    MultiWeakerOfSame,
 }
 
 /// Something another process does to the cache between a writer's last chunk and its commit.
